@@ -114,10 +114,11 @@ Section StepsB5.
       + intros t' r' Hf. unfold fn at 1 in Hf. unfold fn at 1. destruct (Nat.eqb_spec t' t) as [->|]; [cbn in Hf; discriminate|].
         destruct (R6 t' r' Hf) as (Y1 & Y2). split; auto.
         destruct (Nat.eq_dec r' r) as [->|N]; [rewrite fn_same; intros H; apply app_eq_nil in H; destruct H; discriminate|rewrite fn_other by exact N; exact Y2].
-    - apply JW_frame with (g := g) (a := a) (rt := retired_tr tr); [exact El| |reflexivity|vwt t|auto|auto| |apply incl_refl|exact Eoob|exact W1].
+    - apply JW_frame with (g := g) (a := a) (rt := retired_tr tr) (tr := tr); [exact El| |reflexivity|vwt t|auto|auto| | |apply incl_refl|exact Eoob|auto|exact W1].
       + intros r' Hr'. destruct (Nat.eq_dec r' r) as [->|N].
         * unfold ec; cbn [moved rch rw aux_ext]; rewrite fn_same; now rewrite Ec'.
         * apply ec_ext; cbn [aux_ext rch rw moved]; auto; rewrite fn_other by exact N; reflexivity.
       + intros r'. cbn [aux_ext moved rw rch]. split; auto. split; auto. unfold fn. destruct (Nat.eqb_spec r' r) as [->|]; auto. intros E; contradiction.
+      + intros r'. cbn [aux_ext rch]. unfold fn. destruct (Nat.eqb_spec r' r) as [->|]; auto. intros H; apply app_eq_nil in H; destruct H; discriminate.
   Qed.
 End StepsB5.
